@@ -702,4 +702,588 @@ theorem inv_run : ∀ (acts : List Act) (s s' : Sys), Inv s → runActs s acts =
     · rename_i s1 hs
       exact ih s1 s' (inv_step s a s1 h hs) hr
 
+/-! ### the dispatcher never panics in the system -/
+
+/-- test `i` is in `running_tests` -/
+def keyed (d : DState) (i : Nat) : Prop := d.running.any (·.1 == i) = true
+
+/-- what one `handle_event` does to the keys of `running_tests` -/
+theorem keys_facts (d : DState) (e : DEvent) (st : DState) (resp : Response) (reply : Reply) (em : List Emitted)
+    (h : stepCore d e = .ok (st, resp, reply, em)) (j : Nat) :
+    (keyed st j → keyed d j ∨ (e = .started j ∧ reply = .ack)) ∧
+    (keyed d j → (∀ r sl, e ≠ .finished j r sl) → keyed st j) ∧
+    (∀ r sl, e = .finished j r sl → ¬ keyed st j) := by
+  have wc : ∀ (s1 : DState) (em0 : List Emitted) (reason : CancelReason) (rsp : Response),
+      withCancel s1 em0 reason rsp = (st, resp, reply, em) → st.running = s1.running := by
+    intro s1 em0 reason rsp hw
+    unfold withCancel at hw
+    simp only [Prod.mk.injEq] at hw
+    obtain ⟨h1, _⟩ := hw
+    subst h1
+    exact (beginCancel_reg s1 reason rsp).1
+  have same : st.running = d.running → (keyed st j → keyed d j ∨ (e = .started j ∧ reply = .ack)) ∧
+      (keyed d j → (∀ r sl, e ≠ .finished j r sl) → keyed st j) := by
+    intro hr; unfold keyed; rw [hr]; exact ⟨fun h => Or.inl h, fun h _ => h⟩
+  cases e <;> simp only [stepCore] at h
+  case closeRx i =>
+    simp only [Except.ok.injEq, Prod.mk.injEq] at h; obtain ⟨rfl, rfl, rfl, rfl⟩ := h
+    exact ⟨(same rfl).1, (same rfl).2, fun r sl hh => by cases hh⟩
+  case scriptCloseRx =>
+    simp only [Except.ok.injEq, Prod.mk.injEq] at h; obtain ⟨rfl, rfl, rfl, rfl⟩ := h
+    exact ⟨(same rfl).1, (same rfl).2, fun r sl hh => by cases hh⟩
+  case started i =>
+    split at h
+    · simp only [Except.ok.injEq, Prod.mk.injEq] at h; obtain ⟨rfl, rfl, rfl, rfl⟩ := h
+      exact ⟨(same rfl).1, (same rfl).2, fun r sl hh => by cases hh⟩
+    · split at h
+      · cases h
+      · simp only [Except.ok.injEq, Prod.mk.injEq] at h; obtain ⟨rfl, rfl, rfl, rfl⟩ := h
+        refine ⟨?_, ?_, fun r sl hh => by cases hh⟩
+        · intro hk
+          simp only [keyed, any_insertSorted, Bool.or_eq_true, beq_iff_eq] at hk
+          rcases hk with rfl | hk
+          · exact Or.inr ⟨rfl, rfl⟩
+          · exact Or.inl hk
+        · intro hk _
+          simp only [keyed, any_insertSorted, Bool.or_eq_true]
+          exact Or.inr hk
+  case retryStarted i a t =>
+    split at h <;>
+    · simp only [Except.ok.injEq, Prod.mk.injEq] at h; obtain ⟨rfl, rfl, rfl, rfl⟩ := h
+      exact ⟨(same rfl).1, (same rfl).2, fun r sl hh => by cases hh⟩
+  case attemptFailedWillRetry i r sl =>
+    split at h
+    · cases h
+    · simp only [Except.ok.injEq, Prod.mk.injEq] at h; obtain ⟨rfl, rfl, rfl, rfl⟩ := h
+      have hk : ∀ x, (d.running.map (fun e => if (e.1 == i) = true then (e.1, e.2 ++ [r]) else e)).any (·.1 == x) = d.running.any (·.1 == x) :=
+        fun x => any_map_keys _ _ (by intro e; split <;> rfl) x
+      refine ⟨?_, ?_, fun r sl hh => by cases hh⟩
+      · intro h1; left; unfold keyed at *; simp only at h1; rw [hk] at h1; exact h1
+      · intro h1 _; unfold keyed at *; simp only; rw [hk]; exact h1
+  case finished i r sl =>
+    split at h
+    · cases h
+    · rename_i e0 he0
+      have hrun : st.running = d.running.filter (·.1 != i) := by
+        split at h
+        · simp only [Except.ok.injEq] at h
+          rw [wc _ _ _ _ h]; rfl
+        · simp only [Except.ok.injEq, Prod.mk.injEq] at h; obtain ⟨rfl, _⟩ := h; rfl
+      refine ⟨?_, ?_, ?_⟩
+      · intro hk
+        left
+        unfold keyed at *
+        rw [hrun] at hk
+        by_cases hji : j = i
+        · subst hji
+          simp only [List.any_filter] at hk
+          rw [List.any_eq_true] at hk
+          obtain ⟨x, _, hx⟩ := hk
+          simp at hx
+        · rw [any_filter_ne _ _ _ hji] at hk; exact hk
+      · intro hk hne
+        have hji : j ≠ i := by intro e; subst e; exact hne r sl rfl
+        unfold keyed at *
+        rw [hrun, any_filter_ne _ _ _ hji]; exact hk
+      · intro r' sl' heq
+        simp only [DEvent.finished.injEq] at heq
+        obtain ⟨rfl, _, _⟩ := heq
+        unfold keyed
+        rw [hrun]
+        simp only [List.any_filter]
+        rw [List.any_eq_true]
+        rintro ⟨x, _, hx⟩
+        simp at hx
+  case skipped i =>
+    simp only [Except.ok.injEq, Prod.mk.injEq] at h; obtain ⟨rfl, rfl, rfl, rfl⟩ := h
+    exact ⟨(same rfl).1, (same rfl).2, fun r sl hh => by cases hh⟩
+  case scriptStarted a b =>
+    split at h
+    · simp only [Except.ok.injEq, Prod.mk.injEq] at h; obtain ⟨rfl, rfl, rfl, rfl⟩ := h
+      exact ⟨(same rfl).1, (same rfl).2, fun r sl hh => by cases hh⟩
+    · split at h
+      · cases h
+      · simp only [Except.ok.injEq, Prod.mk.injEq] at h; obtain ⟨rfl, rfl, rfl, rfl⟩ := h
+        exact ⟨(same rfl).1, (same rfl).2, fun r sl hh => by cases hh⟩
+  case scriptFinished a res =>
+    split at h
+    · cases h
+    · split at h
+      · simp only [Except.ok.injEq] at h
+        have := wc _ _ _ _ h
+        exact ⟨(same this).1, (same this).2, fun r sl hh => by cases hh⟩
+      · simp only [Except.ok.injEq, Prod.mk.injEq] at h; obtain ⟨rfl, rfl, rfl, rfl⟩ := h
+        exact ⟨(same rfl).1, (same rfl).2, fun r sl hh => by cases hh⟩
+  case shutdown sg =>
+    split at h
+    · cases h
+    · simp only [Except.ok.injEq] at h
+      have := wc _ _ _ _ h
+      exact ⟨(same this).1, (same this).2, fun r sl hh => by cases hh⟩
+  case stop =>
+    split at h <;>
+    · simp only [Except.ok.injEq, Prod.mk.injEq] at h; obtain ⟨rfl, rfl, rfl, rfl⟩ := h
+      exact ⟨(same rfl).1, (same rfl).2, fun r sl hh => by cases hh⟩
+  case «continue» =>
+    split at h <;>
+    · simp only [Except.ok.injEq, Prod.mk.injEq] at h; obtain ⟨rfl, rfl, rfl, rfl⟩ := h
+      exact ⟨(same rfl).1, (same rfl).2, fun r sl hh => by cases hh⟩
+  case info =>
+    simp only [Except.ok.injEq, Prod.mk.injEq] at h; obtain ⟨rfl, rfl, rfl, rfl⟩ := h
+    exact ⟨(same rfl).1, (same rfl).2, fun r sl hh => by cases hh⟩
+  case reportCancel =>
+    simp only [Except.ok.injEq] at h
+    have := wc _ _ _ _ h
+    exact ⟨(same this).1, (same this).2, fun r sl hh => by cases hh⟩
+  case inputEnter =>
+    simp only [Except.ok.injEq, Prod.mk.injEq] at h; obtain ⟨rfl, rfl, rfl, rfl⟩ := h
+    exact ⟨(same rfl).1, (same rfl).2, fun r sl hh => by cases hh⟩
+
+/-- the unit an executor event belongs to -/
+def mentions (i : Nat) : DEvent → Bool
+  | .started j => j == i
+  | .retryStarted j _ _ => j == i
+  | .attemptFailedWillRetry j _ _ => j == i
+  | .finished j _ _ => j == i
+  | _ => false
+
+/-- unit `i`'s undelivered messages, in order -/
+def proj (i : Nat) (l : List DEvent) : List DEvent := l.filter (mentions i)
+
+/-- what unit `i`'s undelivered messages can be, phase by phase (the channel is FIFO and a unit is sequential) -/
+def Pat (i : Nat) : UPhase → List DEvent → Prop
+  | .notStarted, l => l = []
+  | .waitStart, l => l = [.started i]
+  | .running, l => l = []
+  | .delay, l => l = [] ∨ ∃ r sl, l = [.attemptFailedWillRetry i r sl]
+  | .waitRetry, l => (∃ a t, l = [.retryStarted i a t]) ∨ ∃ r sl a t, l = [.attemptFailedWillRetry i r sl, .retryStarted i a t]
+  | .done, l => l = [] ∨ ∃ r sl, l = [.finished i r sl]
+  | .gone, l => l = []
+
+structure Inv2 (s : Sys) : Prop where
+  pat : ∀ i, Pat i (s.phase i) (proj i s.chan)
+  /-- a unit that has not been acknowledged is not in `running_tests` -/
+  k1 : ∀ i, (s.phase i = .notStarted ∨ s.phase i = .waitStart) → ¬ keyed s.d i
+  /-- a unit whose `Finished` is still on its way is -/
+  k2 : ∀ i, s.phase i = .done → proj i s.chan ≠ [] → keyed s.d i
+
+theorem inv2_init (n : Nat) (mf : MaxFail) : Inv2 (Sys.init n mf) := by
+  refine ⟨?_, ?_, ?_⟩ <;> intros <;> simp_all [Sys.init, proj, Pat, keyed, DState.init]
+
+theorem proj_append_single (i : Nat) (l : List DEvent) (e : DEvent) :
+    proj i (l ++ [e]) = proj i l ++ (if mentions i e then [e] else []) := by
+  simp only [proj, List.filter_append, List.filter_cons, List.filter_nil]
+
+theorem proj_cons (i : Nat) (l : List DEvent) (e : DEvent) :
+    proj i (e :: l) = if mentions i e then e :: proj i l else proj i l := by
+  simp only [proj, List.filter_cons]
+
+/-- the dispatcher step's effect on the keys -/
+theorem dstep_keys (d : DState) (e : DEvent) (d' : DState) (o : Out) (h : Dispatcher.step d e = .ok (d', o)) (j : Nat) :
+    (keyed d' j → keyed d j ∨ (e = .started j ∧ o.reply = .ack)) ∧
+    (keyed d j → (∀ r sl, e ≠ .finished j r sl) → keyed d' j) := by
+  unfold Dispatcher.step at h
+  split at h
+  · cases h
+  · rename_i r hr
+    obtain ⟨st, resp, reply, em⟩ := r
+    obtain ⟨c1, c2, _⟩ := keys_facts d e st resp reply em hr j
+    simp only [Except.ok.injEq, Prod.mk.injEq] at h
+    obtain ⟨h1, h2⟩ := h
+    have hst : (finishStep st resp reply em).1 = st := by unfold finishStep; split <;> rfl
+    have hrep : (finishStep st resp reply em).2.reply = reply := by unfold finishStep; split <;> rfl
+    rw [hst] at h1
+    subst h1 h2
+    refine ⟨fun hk => ?_, c2⟩
+    rcases c1 hk with h' | ⟨h1', h2'⟩
+    · exact Or.inl h'
+    · exact Or.inr ⟨h1', by simpa [Out.withDirect, hrep] using h2'⟩
+
+theorem find_of_any (l : List (Nat × List Res)) (i : Nat) (h : l.any (·.1 == i) = true) : ∃ x, l.find? (·.1 == i) = some x := by
+  induction l with
+  | nil => simp at h
+  | cons a as ih =>
+    by_cases ha : (a.1 == i) = true
+    · exact ⟨a, by simp [List.find?_cons, ha]⟩
+    · simp only [List.any_cons, ha, Bool.false_or] at h
+      obtain ⟨x, hx⟩ := ih h
+      exact ⟨x, by simp [List.find?_cons, ha, hx]⟩
+
+/-- the head of a unit's undelivered messages tells its phase -/
+theorem pat_head (i : Nat) (p : UPhase) (e : DEvent) (tl : List DEvent) (h : Pat i p (e :: tl)) :
+    (e = .started i → p = .waitStart ∧ tl = []) ∧
+    (∀ a t, e = .retryStarted i a t → p = .waitRetry ∧ tl = []) ∧
+    (∀ r sl, e = .attemptFailedWillRetry i r sl → (p = .delay ∧ tl = []) ∨ (p = .waitRetry ∧ ∃ a t, tl = [.retryStarted i a t])) ∧
+    (∀ r sl, e = .finished i r sl → p = .done ∧ tl = []) := by
+  cases p <;> simp only [Pat] at h
+  case notStarted => cases h
+  case waitStart =>
+    simp only [List.cons.injEq] at h; obtain ⟨rfl, rfl⟩ := h
+    exact ⟨fun _ => ⟨rfl, rfl⟩, fun a t hh => (by cases hh), fun r sl hh => (by cases hh), fun r sl hh => by cases hh⟩
+  case running => cases h
+  case delay =>
+    rcases h with h | ⟨r, sl, h⟩
+    · cases h
+    · simp only [List.cons.injEq] at h; obtain ⟨rfl, rfl⟩ := h
+      exact ⟨fun hh => (by cases hh), fun a t hh => (by cases hh), fun r sl _ => Or.inl ⟨rfl, rfl⟩, fun r sl hh => by cases hh⟩
+  case waitRetry =>
+    rcases h with ⟨a, t, h⟩ | ⟨r, sl, a, t, h⟩
+    · simp only [List.cons.injEq] at h; obtain ⟨rfl, rfl⟩ := h
+      exact ⟨fun hh => (by cases hh), fun a t _ => ⟨rfl, rfl⟩, fun r sl hh => (by cases hh), fun r sl hh => by cases hh⟩
+    · simp only [List.cons.injEq] at h; obtain ⟨rfl, rfl⟩ := h
+      exact ⟨fun hh => (by cases hh), fun a t hh => (by cases hh), fun r sl _ => Or.inr ⟨rfl, a, t, rfl⟩, fun r sl hh => by cases hh⟩
+  case done =>
+    rcases h with h | ⟨r, sl, h⟩
+    · cases h
+    · simp only [List.cons.injEq] at h; obtain ⟨rfl, rfl⟩ := h
+      exact ⟨fun hh => (by cases hh), fun a t hh => (by cases hh), fun r sl hh => (by cases hh), fun r sl _ => ⟨rfl, rfl⟩⟩
+  case gone => cases h
+
+theorem inv2_send (s : Sys) (i : Nat) (p : UPhase) (e : DEvent) (h2 : Inv2 s)
+    (hm : ∀ k, mentions k e = (i == k))
+    (hpat : Pat i p (proj i s.chan ++ [e]))
+    (hk1 : (p = .notStarted ∨ p = .waitStart) → ¬ keyed s.d i)
+    (hk2 : p = .done → keyed s.d i) : Inv2 (send (setPhase s i p) e) := by
+  have hph : ∀ k, (send (setPhase s i p) e).phase k = if k = i then p else s.phase k := fun k => rfl
+  have hch : (send (setPhase s i p) e).chan = s.chan ++ [e] := rfl
+  have hprojk : ∀ k, k ≠ i → proj k (s.chan ++ [e]) = proj k s.chan := by
+    intro k hk
+    rw [proj_append_single, hm k]
+    have : (i == k) = false := by simp; exact fun e => hk e.symm
+    simp [this]
+  have hproji : proj i (s.chan ++ [e]) = proj i s.chan ++ [e] := by
+    rw [proj_append_single, hm i]; simp
+  refine ⟨?_, ?_, ?_⟩
+  · intro k
+    rw [hph, hch]
+    by_cases hk : k = i
+    · subst hk; simp only [if_true]; rw [hproji]; exact hpat
+    · simp only [hk, if_false]; rw [hprojk k hk]; exact h2.pat k
+  · intro k hk
+    rw [hph] at hk
+    by_cases hki : k = i
+    · subst hki; simp only [if_true] at hk; exact hk1 hk
+    · simp only [hki, if_false] at hk; exact h2.k1 k hk
+  · intro k hk hne
+    rw [hph] at hk
+    by_cases hki : k = i
+    · subst hki; simp only [if_true] at hk; exact hk2 hk
+    · simp only [hki, if_false] at hk
+      rw [hch, hprojk k hki] at hne
+      exact h2.k2 k hk hne
+
+/-- the dispatcher's step applied: keys change only by an acknowledged start and a processed finish -/
+theorem inv2_keys (s : Sys) (h2 : Inv2 s) (e : DEvent) (d' : DState) (o : Out) (hd : Dispatcher.step s.d e = .ok (d', o))
+    (chan' : List DEvent) (hpat : ∀ i, Pat i (s.phase i) (proj i chan'))
+    (hne1 : ∀ j, (s.phase j = .notStarted ∨ s.phase j = .waitStart) → ¬ (e = .started j ∧ o.reply = .ack))
+    (hne2 : ∀ j, s.phase j = .done → proj j chan' ≠ [] → proj j s.chan ≠ [] ∧ ∀ r sl, e ≠ .finished j r sl) :
+    Inv2 (applyOut { s with chan := chan' } d' o) := by
+  refine ⟨hpat, ?_, ?_⟩
+  · intro j hj hk
+    have hk' : keyed d' j := hk
+    rcases (dstep_keys s.d e d' o hd j).1 hk' with h | h
+    · exact h2.k1 j hj h
+    · exact hne1 j hj h
+  · intro j hj hne
+    obtain ⟨h1, h2'⟩ := hne2 j hj hne
+    exact (dstep_keys s.d e d' o hd j).2 (h2.k2 j hj h1) h2'
+
+theorem inv2_reply (s : Sys) (h2 : Inv2 s) (i : Nat) (ack : Bool) (hp : proj i s.chan = [])
+    (hph : s.phase i = .waitStart ∨ s.phase i = .waitRetry) :
+    Inv2 (if ack then setPhase s i .running
+          else setPhase { s with d := { s.d with rxOpen := s.d.rxOpen.filter (· != i) } } i .gone) := by
+  have hne : s.phase i ≠ .done := by rcases hph with h | h <;> rw [h] <;> intro e <;> cases e
+  cases ack with
+  | true =>
+    simp only [if_true]
+    refine ⟨?_, ?_, ?_⟩
+    · intro k
+      by_cases hk : k = i
+      · subst hk; simp only [setPhase, if_true, Pat]; exact hp
+      · simp only [setPhase, hk, if_false]; exact h2.pat k
+    · intro k hk
+      by_cases hki : k = i
+      · subst hki; simp [setPhase] at hk
+      · simp only [setPhase, hki, if_false] at hk; exact h2.k1 k hk
+    · intro k hk hne'
+      by_cases hki : k = i
+      · subst hki; simp [setPhase] at hk
+      · simp only [setPhase, hki, if_false] at hk; exact h2.k2 k hk hne'
+  | false =>
+    simp only [Bool.false_eq_true, if_false]
+    refine ⟨?_, ?_, ?_⟩
+    · intro k
+      by_cases hk : k = i
+      · subst hk; simp only [setPhase, if_true, Pat]; exact hp
+      · simp only [setPhase, hk, if_false]; exact h2.pat k
+    · intro k hk
+      by_cases hki : k = i
+      · subst hki; simp [setPhase] at hk
+      · simp only [setPhase, hki, if_false] at hk; exact h2.k1 k hk
+    · intro k hk hne'
+      by_cases hki : k = i
+      · subst hki; simp [setPhase] at hk
+      · simp only [setPhase, hki, if_false] at hk; exact h2.k2 k hk hne'
+
+theorem inv2_final (s : Sys) (h2 : Inv2 s) (e : DEvent) (d' : DState) (o : Out) (hd : Dispatcher.step s.d e = .ok (d', o)) (s' : Sys)
+    (hd' : ∀ j, keyed s'.d j ↔ keyed d' j)
+    (hpat : ∀ i, Pat i (s'.phase i) (proj i s'.chan))
+    (hk1 : ∀ j, (s'.phase j = .notStarted ∨ s'.phase j = .waitStart) →
+      (s.phase j = .notStarted ∨ s.phase j = .waitStart) ∧ ¬ (e = .started j ∧ o.reply = .ack))
+    (hk2 : ∀ j, s'.phase j = .done → proj j s'.chan ≠ [] →
+      s.phase j = .done ∧ proj j s.chan ≠ [] ∧ ∀ r sl, e ≠ .finished j r sl) : Inv2 s' := by
+  refine ⟨hpat, ?_, ?_⟩
+  · intro j hj hk
+    obtain ⟨h1, h3⟩ := hk1 j hj
+    rcases (dstep_keys s.d e d' o hd j).1 ((hd' j).mp hk) with h | h
+    · exact h2.k1 j h1 h
+    · exact h3 h
+  · intro j hj hne
+    obtain ⟨h1, h3, h4⟩ := hk2 j hj hne
+    exact (hd' j).mpr ((dstep_keys s.d e d' o hd j).2 (h2.k2 j h1 h3) h4)
+
+theorem mentions_started (i k : Nat) : mentions k (.started i) = (i == k) := rfl
+theorem mentions_retry (i a t k : Nat) : mentions k (.retryStarted i a t) = (i == k) := rfl
+theorem mentions_failed (i : Nat) (r : Res) (sl : Bool) (k : Nat) : mentions k (.attemptFailedWillRetry i r sl) = (i == k) := rfl
+theorem mentions_finished (i : Nat) (r : Res) (sl : Bool) (k : Nat) : mentions k (.finished i r sl) = (i == k) := rfl
+
+theorem external_mentions (e : DEvent) (h : isExternal e = true) (k : Nat) : mentions k e = false := by
+  cases e <;> simp [isExternal] at h <;> rfl
+
+/-- every transition keeps the second invariant too -/
+theorem inv2_step (s : Sys) (a : Act) (s' : Sys) (h : Inv s) (h2 : Inv2 s) (hs : step s a = some s') : Inv2 s' := by
+  cases a with
+  | dispatch i =>
+    simp only [step] at hs
+    split at hs
+    · rename_i hp
+      simp only [Option.some.injEq] at hs; subst hs
+      have hpi := h2.pat i
+      rw [hp] at hpi
+      simp only [Pat] at hpi
+      exact inv2_send s i .waitStart (.started i) h2 (mentions_started i) (by rw [hpi]; rfl)
+        (fun _ => h2.k1 i (Or.inl hp)) (fun hh => by cases hh)
+    · cases hs
+  | exitFinish i r slow =>
+    simp only [step] at hs
+    split at hs
+    · rename_i hp
+      simp only [Option.some.injEq] at hs; subst hs
+      have hpi := h2.pat i
+      rw [hp] at hpi
+      simp only [Pat] at hpi
+      exact inv2_send s i .done (.finished i r slow) h2 (mentions_finished i r slow) (by rw [hpi]; exact Or.inr ⟨r, slow, rfl⟩)
+        (fun hh => by rcases hh with hh | hh <;> cases hh) (fun _ => (h.reg i (Or.inl hp)).1)
+    · cases hs
+  | exitRetry i r slow =>
+    simp only [step] at hs
+    split at hs
+    · rename_i hp
+      simp only [Option.some.injEq] at hs; subst hs
+      have hpi := h2.pat i
+      rw [hp] at hpi
+      simp only [Pat] at hpi
+      exact inv2_send s i .delay (.attemptFailedWillRetry i r slow) h2 (mentions_failed i r slow) (by rw [hpi]; exact Or.inr ⟨r, slow, rfl⟩)
+        (fun hh => by rcases hh with hh | hh <;> cases hh) (fun hh => by cases hh)
+    · cases hs
+  | delayExpires i at' t =>
+    simp only [step] at hs
+    split at hs
+    · rename_i hp
+      simp only [Option.some.injEq] at hs; subst hs
+      have hpi := h2.pat i
+      rw [hp] at hpi
+      simp only [Pat] at hpi
+      refine inv2_send s i .waitRetry (.retryStarted i at' t) h2 (mentions_retry i at' t) ?_
+        (fun hh => by rcases hh with hh | hh <;> cases hh) (fun hh => by cases hh)
+      rcases hpi with hpi | ⟨r, sl, hpi⟩
+      · rw [hpi]; exact Or.inl ⟨at', t, rfl⟩
+      · rw [hpi]; exact Or.inr ⟨r, sl, at', t, rfl⟩
+    · cases hs
+  | recv i =>
+    simp only [step] at hs
+    split at hs
+    · cases hs
+    · rename_i r rest hm
+      split at hs
+      · simp only [Option.some.injEq] at hs; subst hs; exact ⟨h2.pat, h2.k1, h2.k2⟩
+      · rename_i hp
+        split at hs
+        · simp only [Option.some.injEq] at hs; subst hs
+          have hpi := h2.pat i
+          rw [hp] at hpi
+          simp only [Pat] at hpi
+          have h2m : Inv2 (setMail s i rest) := ⟨h2.pat, h2.k1, h2.k2⟩
+          refine inv2_send (setMail s i rest) i .waitRetry (.retryStarted i 0 0) h2m (mentions_retry i 0 0) ?_
+            (fun hh => by rcases hh with hh | hh <;> cases hh) (fun hh => by cases hh)
+          show Pat i .waitRetry (proj i s.chan ++ [.retryStarted i 0 0])
+          rcases hpi with hpi | ⟨r', sl, hpi⟩
+          · rw [hpi]; exact Or.inl ⟨0, 0, rfl⟩
+          · rw [hpi]; exact Or.inr ⟨r', sl, 0, 0, rfl⟩
+        · simp only [Option.some.injEq] at hs; subst hs; exact ⟨h2.pat, h2.k1, h2.k2⟩
+      · simp only [Option.some.injEq] at hs; subst hs; exact ⟨h2.pat, h2.k1, h2.k2⟩
+      · cases hs
+  | external e =>
+    simp only [step] at hs
+    split at hs
+    · rename_i hext
+      split at hs
+      · cases hs
+      · rename_i d' o hd
+        simp only [Option.some.injEq] at hs; subst hs
+        refine inv2_final s h2 e d' o hd _ (fun j => Iff.rfl) h2.pat ?_ ?_
+        · intro j hj
+          refine ⟨hj, ?_⟩
+          rintro ⟨he, _⟩
+          rw [he] at hext; cases hext
+        · intro j hj hne
+          exact ⟨hj, hne, (external_ne e hext j).1⟩
+    · cases hs
+  | deliver =>
+    simp only [step] at hs
+    split at hs
+    · cases hs
+    · rename_i e rest hch
+      split at hs
+      · cases hs
+      · rename_i d' o hd
+        have hue : UnitEvent e := h.unitEv e (by rw [hch]; exact List.mem_cons_self ..)
+        -- the unit `u` the head belongs to; all other units' projections are untouched
+        have key : ∀ u, (∀ k, mentions k e = (u == k)) →
+            proj u s.chan = e :: proj u rest ∧ ∀ k, k ≠ u → proj k s.chan = proj k rest := by
+          intro u hm
+          refine ⟨by rw [hch, proj_cons, hm u]; simp, ?_⟩
+          intro k hk
+          rw [hch, proj_cons, hm k]
+          have : (u == k) = false := by simp; exact fun e => hk e.symm
+          simp [this]
+        split at hs
+        · -- Started
+          rename_i i
+          obtain ⟨hpi, hpk⟩ := key i (mentions_started i)
+          have hpat := h2.pat i
+          rw [hpi] at hpat
+          obtain ⟨hph, hrest⟩ := (pat_head i _ _ _ hpat).1 rfl
+          have hfin : ∀ (ack : Bool) (s'' : Sys), s'' = (if ack then setPhase (applyOut { s with chan := rest } d' o) i .running
+              else setPhase { (applyOut { s with chan := rest } d' o) with d := { d' with rxOpen := d'.rxOpen.filter (· != i) } } i .gone) →
+              (ack = true ↔ o.reply = .ack) → Inv2 s'' := by
+            intro ack s'' hs'' hack
+            have hphase : ∀ k, s''.phase k = if k = i then (if ack then .running else .gone) else s.phase k := by
+              intro k; subst hs''; cases ack <;> rfl
+            have hchan : s''.chan = rest := by subst hs''; cases ack <;> rfl
+            refine inv2_final s h2 _ d' o hd s'' (by intro j; subst hs''; cases ack <;> exact Iff.rfl) ?_ ?_ ?_
+            · intro k
+              rw [hphase, hchan]
+              by_cases hk : k = i
+              · subst hk; simp only [if_true]; rw [hrest]; cases ack <;> rfl
+              · simp only [hk, if_false]; rw [← hpk k hk]; exact h2.pat k
+            · intro j hj
+              rw [hphase] at hj
+              by_cases hji : j = i
+              · subst hji; simp only [if_true] at hj; cases ack <;> rcases hj with hj | hj <;> cases hj
+              · simp only [hji, if_false] at hj
+                refine ⟨hj, ?_⟩
+                rintro ⟨he, _⟩
+                simp only [DEvent.started.injEq] at he
+                exact hji he.symm
+            · intro j hj hne
+              rw [hphase] at hj
+              rw [hchan] at hne
+              by_cases hji : j = i
+              · subst hji; simp only [if_true] at hj; cases ack <;> cases hj
+              · simp only [hji, if_false] at hj
+                exact ⟨hj, by rw [hpk j hji]; exact hne, fun r sl hh => by cases hh⟩
+          split at hs
+          · rename_i hack
+            simp only [Option.some.injEq] at hs
+            exact hfin true s' (by rw [← hs]; rfl) (by simp [hack])
+          · rename_i hack
+            simp only [Option.some.injEq] at hs
+            exact hfin false s' (by rw [← hs]; rfl) (by simp [hack])
+        · -- RetryStarted
+          rename_i i at' t
+          obtain ⟨hpi, hpk⟩ := key i (mentions_retry i at' t)
+          have hpat := h2.pat i
+          rw [hpi] at hpat
+          obtain ⟨hph, hrest⟩ := (pat_head i _ _ _ hpat).2.1 at' t rfl
+          have hfin : ∀ (ack : Bool) (s'' : Sys), s'' = (if ack then setPhase (applyOut { s with chan := rest } d' o) i .running
+              else setPhase { (applyOut { s with chan := rest } d' o) with d := { d' with rxOpen := d'.rxOpen.filter (· != i) } } i .gone) →
+              Inv2 s'' := by
+            intro ack s'' hs''
+            have hphase : ∀ k, s''.phase k = if k = i then (if ack then .running else .gone) else s.phase k := by
+              intro k; subst hs''; cases ack <;> rfl
+            have hchan : s''.chan = rest := by subst hs''; cases ack <;> rfl
+            refine inv2_final s h2 _ d' o hd s'' (by intro j; subst hs''; cases ack <;> exact Iff.rfl) ?_ ?_ ?_
+            · intro k
+              rw [hphase, hchan]
+              by_cases hk : k = i
+              · subst hk; simp only [if_true]; rw [hrest]; cases ack <;> rfl
+              · simp only [hk, if_false]; rw [← hpk k hk]; exact h2.pat k
+            · intro j hj
+              rw [hphase] at hj
+              by_cases hji : j = i
+              · subst hji; simp only [if_true] at hj; cases ack <;> rcases hj with hj | hj <;> cases hj
+              · simp only [hji, if_false] at hj
+                exact ⟨hj, fun hh => by cases hh.1⟩
+            · intro j hj hne
+              rw [hphase] at hj
+              rw [hchan] at hne
+              by_cases hji : j = i
+              · subst hji; simp only [if_true] at hj; cases ack <;> cases hj
+              · simp only [hji, if_false] at hj
+                exact ⟨hj, by rw [hpk j hji]; exact hne, fun r sl hh => by cases hh⟩
+          split at hs
+          · simp only [Option.some.injEq] at hs
+            exact hfin true s' (by rw [← hs]; rfl)
+          · simp only [Option.some.injEq] at hs
+            exact hfin false s' (by rw [← hs]; rfl)
+        · -- AttemptFailedWillRetry or Finished: phases unchanged
+          rename_i hns hnr
+          simp only [Option.some.injEq] at hs; subst hs
+          rcases hue with ⟨i, rfl⟩ | ⟨i, a, t, rfl⟩ | ⟨i, r, sl, rfl⟩ | ⟨i, r, sl, rfl⟩
+          · exact absurd rfl (hns i)
+          · exact absurd rfl (hnr i a t)
+          · obtain ⟨hpi, hpk⟩ := key i (mentions_failed i r sl)
+            have hpat := h2.pat i
+            rw [hpi] at hpat
+            have hh := (pat_head i _ _ _ hpat).2.2.1 r sl rfl
+            refine inv2_final s h2 _ d' o hd _ (fun j => Iff.rfl) ?_ ?_ ?_
+            · intro k
+              show Pat k (s.phase k) (proj k rest)
+              by_cases hk : k = i
+              · subst hk
+                rcases hh with ⟨hp, hr⟩ | ⟨hp, a, t, hr⟩
+                · rw [hp, hr]; exact Or.inl rfl
+                · rw [hp, hr]; exact Or.inl ⟨a, t, rfl⟩
+              · rw [← hpk k hk]; exact h2.pat k
+            · intro j hj
+              exact ⟨hj, fun hh' => by cases hh'.1⟩
+            · intro j hj hne
+              have hne' : proj j rest ≠ [] := hne
+              by_cases hji : j = i
+              · subst hji
+                have hj' : s.phase j = .done := hj
+                rcases hh with ⟨hp, _⟩ | ⟨hp, _⟩ <;> rw [hp] at hj' <;> cases hj'
+              · exact ⟨hj, by rw [hpk j hji]; exact hne', fun r' sl' hh' => by cases hh'⟩
+          · obtain ⟨hpi, hpk⟩ := key i (mentions_finished i r sl)
+            have hpat := h2.pat i
+            rw [hpi] at hpat
+            obtain ⟨hp, hr⟩ := (pat_head i _ _ _ hpat).2.2.2 r sl rfl
+            refine inv2_final s h2 _ d' o hd _ (fun j => Iff.rfl) ?_ ?_ ?_
+            · intro k
+              show Pat k (s.phase k) (proj k rest)
+              by_cases hk : k = i
+              · subst hk; rw [hp, hr]; exact Or.inl rfl
+              · rw [← hpk k hk]; exact h2.pat k
+            · intro j hj
+              exact ⟨hj, fun hh' => by cases hh'.1⟩
+            · intro j hj hne
+              have hne' : proj j rest ≠ [] := hne
+              by_cases hji : j = i
+              · subst hji; exact absurd hr hne'
+              · refine ⟨hj, by rw [hpk j hji]; exact hne', ?_⟩
+                intro r' sl' hh'
+                simp only [DEvent.finished.injEq] at hh'
+                exact hji hh'.1.symm
+
 end NextestModel.System
